@@ -540,6 +540,27 @@ theorem C35_unrepaired_counterexamples :
      (validate false dmac s 0 (.opaque 1)).2 = .user 2 2) := by
   decide
 
+/-- Not a counterexample, a boundary of the statement (the history behind a thorough-tier alarm, minimised;
+replayed on the real code by the corpus case `corpus_expired_refresh_cleanup_removes_unexpired_access_token`):
+`Refresh` gives the new access token a full `ttl` but the refresh lifetime is inherited, so the access token
+(expiry 10680) outlives the refresh token (7200). The token is valid when issued (7080) and later (7440); it is
+rejected at 7440 only after `Refresh` was presented with the session's expired refresh token at 7380, whose
+cleanup removes both records - and only because its role is empty, which leaves it the store fallback alone
+(with role 1 the signed fast path keeps accepting it). "Valid when issued" is what `C35_refresh` proves. -/
+theorem C35_expired_refresh_cleanup_witness :
+    (let A2 : Token DTag := sign dmac 0 ⟨2, 0, 7080, 10680, 2⟩
+     let s := run true dmac (init 0 3600 7200) [.createSession 0 2 0, .refresh 7080 (.opaque 1)]
+     let s' := (refresh true dmac s 7380 (.opaque 3)).1
+     (validate true dmac s 7080 A2).2 = .user 2 0 ∧ (validate true dmac s 7440 A2).2 = .user 2 0 ∧
+       (refresh true dmac s 7380 (.opaque 3)).2 = .err .expiredRefresh ∧ s'.table = [] ∧
+       A2 ∉ s'.revoked ∧ A2 ∉ s'.rotated ∧
+       (validate true dmac s' 7440 A2).2 = .err .invalidSession) ∧
+    (let A2 : Token DTag := sign dmac 0 ⟨2, 1, 7080, 10680, 2⟩
+     let s := run true dmac (init 0 3600 7200) [.createSession 0 2 1, .refresh 7080 (.opaque 1)]
+     let s' := (refresh true dmac s 7380 (.opaque 3)).1
+     s'.table = [] ∧ (validate true dmac s' 7440 A2).2 = .user 2 1) := by
+  decide +kernel
+
 /-- non-vacuity: a reachable state with a live session in which the hypotheses of
 `C35_valid_iff_partial` and `C35_refresh` hold and the conclusions are about real successes -/
 example :
